@@ -13,9 +13,11 @@
 (*                                                                         *)
 (* A selection is a CHAIN of branches  [g, alg, fwd]  in source order:     *)
 (* g = the guard evaluated on the facts, alg = the algorithm class that    *)
-(* is instantiated, fwd = TRUE when the options of the Auto object are     *)
-(* forwarded (`Alg(options of the Auto object as keywords)`), FALSE when they are dropped          *)
-(* (`Alg()`).  The code takes the FIRST branch whose guard holds.          *)
+(* is instantiated, fwd = "all" when the options of the Auto object are    *)
+(* forwarded verbatim as keywords, "drop" when they are dropped (`Alg()`), *)
+(* "known" when they are renamed to the algorithm's spelling and filtered  *)
+(* to its fields (eig -> PowerIteration since fix 00e9d62).                *)
+(* The code takes the FIRST branch whose guard holds.                      *)
 (*                                                                         *)
 (* Facts  F = [anns  |-> set of annotation names A carries,                *)
 (*             n, m  |-> A.shape,                                          *)
@@ -74,39 +76,40 @@ AC_Chain(base, fn, F) ==
         wh == AC_Which(fn, F)
     IN CASE base = "inv" ->
                \* match (A.isa(PSD), bool(np.prod(A.shape) <= 1e6)):
-               <<AC_Br(psd /\ small, IF AutoMutant = "InvSmallCG" THEN "CG" ELSE "Cholesky", FALSE),
-                 AC_Br(psd /\ ~small, "CG", TRUE),
-                 AC_Br(~psd /\ small, "LU", FALSE),
-                 AC_Br(~psd /\ ~small, "GMRES", TRUE)>>
+               <<AC_Br(psd /\ small, IF AutoMutant = "InvSmallCG" THEN "CG" ELSE "Cholesky", "drop"),
+                 AC_Br(psd /\ ~small, "CG", "all"),
+                 AC_Br(~psd /\ small, "LU", "drop"),
+                 AC_Br(~psd /\ ~small, "GMRES", "all")>>
          [] base = "pinv" ->
-               <<AC_Br(small, "LSTSQ", FALSE),
-                 AC_Br(IF AutoMutant = "PinvOverlap" THEN F.n * F.m >= 1000000 ELSE ~small, "CG", TRUE)>>
+               <<AC_Br(small, "LSTSQ", "drop"),
+                 AC_Br(IF AutoMutant = "PinvOverlap" THEN F.n * F.m >= 1000000 ELSE ~small, "CG", "all")>>
          [] base = "slogdet" ->
-               <<AC_Br(psd /\ small, IF AutoMutant = "SlogdetPSDLU" THEN "LU" ELSE "Cholesky", FALSE),
-                 AC_Br(~psd /\ small, "LU", FALSE),
-                 AC_Br(psd /\ ~small, "Lanczos", TRUE),
-                 AC_Br(~psd /\ ~small, "Arnoldi", TRUE)>>
+               <<AC_Br(psd /\ small, IF AutoMutant = "SlogdetPSDLU" THEN "LU" ELSE "Cholesky", "drop"),
+                 AC_Br(~psd /\ small, "LU", "drop"),
+                 AC_Br(psd /\ ~small, "Lanczos", "all"),
+                 AC_Br(~psd /\ ~small, "Arnoldi", "all")>>
          [] base = "diag" ->
                LET ef == IF AutoMutant = "DiagSwitch1e6" THEN small ELSE AC_ExactFaster(F) IN
-               <<AC_Br(ef, "Exact", FALSE), AC_Br(~ef, "Hutch", TRUE)>>
+               <<AC_Br(ef, "Exact", "drop"), AC_Br(~ef, "Hutch", "all")>>
          [] base = "eig" ->
-               (IF AutoMutant = "EigNoPower" THEN <<>> ELSE <<AC_Br(k = 1 /\ wh = "LM", "PowerIteration", TRUE)>>)
-               \o <<AC_Br(sa /\ small, "Eigh", FALSE),
-                    AC_Br(~sa /\ small, "Eig", FALSE),
-                    AC_Br(sa /\ ~small, "Lanczos", TRUE),
-                    AC_Br(~sa /\ ~small, "Arnoldi", TRUE)>>
+               (IF AutoMutant = "EigNoPower" THEN <<>> ELSE <<AC_Br(k = 1 /\ wh = "LM", "PowerIteration",
+                                                                  IF AutoMutant = "EigPowerForwardAll" THEN "all" ELSE "known")>>)
+               \o <<AC_Br(sa /\ small, "Eigh", "drop"),
+                    AC_Br(~sa /\ small, "Eig", "drop"),
+                    AC_Br(sa /\ ~small, "Lanczos", "all"),
+                    AC_Br(~sa /\ ~small, "Arnoldi", "all")>>
          [] base = "svd" ->
-               <<AC_Br(small, "DenseSVD", FALSE),
-                 AC_Br(~small, IF AutoMutant = "SvdLargeDense" THEN "DenseSVD" ELSE "Lanczos", TRUE)>>
+               <<AC_Br(small, "DenseSVD", "drop"),
+                 AC_Br(~small, IF AutoMutant = "SvdLargeDense" THEN "DenseSVD" ELSE "Lanczos", "all")>>
          [] base = "apply_unary" ->
                \* psd, small = A.isa(PSD), np.prod(A.shape) <= 1e6      (the docstring says "Hermitian")
                LET h == IF AutoMutant = "UnaryUsesSA" THEN sa ELSE psd
-                   full == <<AC_Br(h /\ small, "Eigh", FALSE),
-                             AC_Br(~h /\ small, "Eig", FALSE),
-                             AC_Br(h /\ ~small, "Lanczos", TRUE),
-                             AC_Br(~h /\ ~small, "Arnoldi", TRUE)>>
+                   full == <<AC_Br(h /\ small, "Eigh", "drop"),
+                             AC_Br(~h /\ small, "Eig", "drop"),
+                             AC_Br(h /\ ~small, "Lanczos", "all"),
+                             AC_Br(~h /\ ~small, "Arnoldi", "all")>>
                IN IF AutoMutant = "UnaryDropLast" THEN SubSeq(full, 1, 3) ELSE full
-         [] base = "none" -> <<AC_Br(TRUE, "none", FALSE)>>
+         [] base = "none" -> <<AC_Br(TRUE, "none", "drop")>>
 
 AC_Matching(ch) == {i \in 1..Len(ch): ch[i].g}
 AC_First(ch) == LET M == AC_Matching(ch) IN IF M = {} THEN 0 ELSE CHOOSE i \in M: \A j \in M: i <= j
@@ -126,13 +129,21 @@ AC_Fields(alg) ==
       [] alg = "Hutch" -> {"tol", "max_iters", "bs", "rand", "pbar", "key"}
       [] alg = "Exact" -> {"bs", "pbar"}
       [] OTHER -> {}
-\* what the hand-over does with the options: `Alg(options of the Auto object as keywords)` raises TypeError on an unknown keyword
+\* what the hand-over does with the options: "all": Alg(options as keywords) raises TypeError on an unknown keyword;
+\* "known" (eig -> PowerIteration): max_iters is renamed max_iter, then only the fields of the class are passed
+AC_Rename(alg, o) == IF alg = "PowerIteration" /\ o = "max_iters" THEN "max_iter" ELSE o
+AC_Unrename(alg, o) == IF alg = "PowerIteration" /\ o = "max_iter" THEN "max_iters" ELSE o
+AC_Passed(br, opts) ==
+    CASE br.fwd = "all" -> opts
+      [] br.fwd = "known" -> {AC_Rename(br.alg, o): o \in opts} \cap AC_Fields(br.alg)
+      [] OTHER -> {}
 AutoOutcome(fn, F) ==
     LET ch == AC_Chain(AC_Base(fn, F), fn, F)
         i == AC_First(ch)
-    IN IF i = 0 THEN [alg |-> "NONE", exc |-> "RecursionError"]
-       ELSE IF ch[i].fwd /\ ~(F.opts \subseteq AC_Fields(ch[i].alg)) THEN [alg |-> ch[i].alg, exc |-> "TypeError"]
-       ELSE [alg |-> ch[i].alg, exc |-> "none"]
+    IN IF i = 0 THEN [alg |-> "NONE", exc |-> "RecursionError", passed |-> {}]
+       ELSE IF ch[i].fwd = "all" /\ ~(F.opts \subseteq AC_Fields(ch[i].alg))
+       THEN [alg |-> ch[i].alg, exc |-> "TypeError", passed |-> {}]
+       ELSE [alg |-> ch[i].alg, exc |-> "none", passed |-> AC_Passed(ch[i], F.opts)]
 
 \* operand classes with a structural rule (typed on a proper operator class) that pre-empts the Auto base case;
 \* "?" marks a conditional rule
@@ -203,12 +214,12 @@ DiagChoiceSoundAt(fn, F) ==
     AC_Base(fn, F) = "diag" =>
         ((AutoChoice(fn, F) = "Exact") <=>
             (F.tol.def \/ 10 * F.n * F.m * F.tol.p * F.tol.p < F.tol.q * F.tol.q))
-\* an option that one of the algorithms reachable from the entry point accepts never crashes the hand-over.
-\* FAILS for eig (recorded defect: PowerIteration spells its iteration cap `max_iter` and has no start_vector, so
-\* eigmax(A, Auto(max_iters=10)) raises TypeError while eig(A, 2, 'LM', Auto(max_iters=10)) works)
+\* an option that one of the algorithms reachable from the entry point accepts (in Auto's spelling) never crashes the
+\* hand-over.  Before fix 00e9d62 this FAILED for eig (PowerIteration spells its iteration cap `max_iter` and has no
+\* start_vector, so eigmax(A, Auto(max_iters=10)) raised TypeError): mutant EigPowerForwardAll.
 AC_Forwardable(fn, F) ==
-    LET ch == AC_Chain(AC_Base(fn, F), fn, F) IN UNION {IF ch[i].fwd THEN AC_Fields(ch[i].alg) ELSE {}: i \in 1..Len(ch)}
+    LET ch == AC_Chain(AC_Base(fn, F), fn, F) IN
+    UNION {IF ch[i].fwd = "drop" THEN {} ELSE {AC_Unrename(ch[i].alg, o): o \in AC_Fields(ch[i].alg)}: i \in 1..Len(ch)}
 AutoOptsForwardAt(fn, F) ==
     (F.opts \subseteq AC_Forwardable(fn, F)) => AutoOutcome(fn, F).exc = "none"
-AutoOptsForwardExceptEigAt(fn, F) == AC_Base(fn, F) # "eig" => AutoOptsForwardAt(fn, F)
 =============================================================================
